@@ -120,12 +120,17 @@ def pick_op(ctx, cs, dim, lmin):
     return [10 ** 6] * dim, "huge"
 
 
-def run_history(ctx, drv, dim, lmin, lmax, ops=None, nops=0):
+def run_history(ctx, drv, dim, lmin, lmax, ops=None, nops=0, obs_seed=None):
     """returns (ok, executed ops); ops=None: draw them from the rng"""
     from sparseSpACE.combiScheme import CombiScheme
     cs = CombiScheme(dim)
     cs.init_adaptive_combi_scheme(lmax, lmin)
-    case = {"dim": dim, "lmin": lmin, "lmax": lmax, "ops": []}
+    import random as _random
+    if obs_seed is None:
+        obs_seed = ctx.rng.randrange(1 << 30)
+    obs_rng = _random.Random(obs_seed)
+    obs_prob = obs_rng.choice([1.0, 0.5, 0.25, 0.0])
+    case = {"dim": dim, "lmin": lmin, "lmax": lmax, "ops": [], "obs_seed": obs_seed}
     r = drv.ask("init %d %d %d" % (dim, lmax, lmin))
     ok = True
 
@@ -167,9 +172,14 @@ def run_history(ctx, drv, dim, lmin, lmax, ops=None, nops=0):
         ctx.count("ret_none" if ret is None else "ret_%d_dims" % len(ret))
         compare("update-return", impl_ret, drv.ask("upd " + vec_str(lv)))
         compare("state", impl_state(cs), drv.ask("state"))
-        compare("scheme", fmt_scheme(impl_scheme(cs)), drv.ask("scheme"))
-        if not oracle(ctx, cs, dim, lmin, dict(case, ops=list(case["ops"]))):
-            ok = False
+        # the scheme getter is observed only at some steps (and always at the end): a getter with hidden state
+        # (memoisation, lazily updated caches) must not be refreshed by the observer after every operation
+        last = (i >= nops) if ops is None else (i >= len(ops))
+        if last or obs_rng.random() < obs_prob:
+            ctx.count("scheme_observations")
+            compare("scheme", fmt_scheme(impl_scheme(cs)), drv.ask("scheme"))
+            if not oracle(ctx, cs, dim, lmin, dict(case, ops=list(case["ops"]), obs_seed=case["obs_seed"])):
+                ok = False
         if not ok:
             break
     return ok, case
@@ -198,7 +208,7 @@ def run(ctx):
 def replay(ctx, rp):
     case = rp["case"]
     drv = ctx.driver("drv_c01")
-    ok, _ = run_history(ctx, drv, case["dim"], case["lmin"], case["lmax"], case.get("ops", []))
+    ok, _ = run_history(ctx, drv, case["dim"], case["lmin"], case["lmax"], case.get("ops", []), obs_seed=case.get("obs_seed"))
     print("replay: %s" % ("property holds and model agrees on this case" if ok else "REPRODUCED"))
     for v in ctx.violations[:3]:
         print("  violation:", v["probe"], v["detail"])
